@@ -227,9 +227,22 @@ type hcase struct {
 	N      int    `json:"n"`
 	Sizes  []int  `json:"read_sizes,omitempty"`
 	EOF    bool   `json:"data_with_eof,omitempty"`
+	Skip   int    `json:"consumed_before,omitempty"` // bytes the caller already read from the carrier
 }
 
 func mkInput(hc hcase) (in any, want []byte, supported map[string]bool) {
+	in, want, supported = mkInput0(hc)
+	if hc.Skip > 0 {
+		// a partially consumed carrier stands for its unread remainder
+		if r, ok := in.(io.Reader); ok {
+			io.ReadFull(r, make([]byte, hc.Skip))
+			want = want[hc.Skip:]
+		}
+	}
+	return
+}
+
+func mkInput0(hc hcase) (in any, want []byte, supported map[string]bool) {
 	b := content(hc.N)
 	all := map[string]bool{"ToBytes": true, "ToReader": true}
 	switch hc.Input {
@@ -278,6 +291,9 @@ func mkInput(hc hcase) (in any, want []byte, supported map[string]bool) {
 func runHelper(hc hcase) (string, string) {
 	in, want, sup := mkInput(hc)
 	desc := fmt.Sprintf("%s(%s, %d bytes, read sizes %v, data+EOF=%v)", hc.Helper, hc.Input, hc.N, hc.Sizes, hc.EOF)
+	if hc.Skip > 0 {
+		desc = fmt.Sprintf("%s(%s of %d bytes with %d already consumed, read sizes %v, data+EOF=%v)", hc.Helper, hc.Input, hc.N, hc.Skip, hc.Sizes, hc.EOF)
+	}
 	cmp := func(got []byte, err error, supported bool) (string, string) {
 		if !supported {
 			if err == nil {
@@ -378,6 +394,16 @@ func helpers() *explore.Scenario {
 					for _, n := range []int{0, 1, 2, 9, 1023, 1024, 1025, 4096, 65537} {
 						if c.Mine() {
 							try(hcase{Helper: h, Input: in, N: n})
+						}
+					}
+				}
+				// partially consumed carriers: the unread remainder is the message
+				for _, in := range []string{"*bytes.Buffer", "*bytes.Reader", "*strings.Reader", "io.Reader"} {
+					for _, n := range []int{1, 2, 9, 1025, 4096} {
+						for _, sk := range []int{1, n / 2, n - 1, n} {
+							if sk > 0 && sk <= n && c.Mine() {
+								try(hcase{Helper: h, Input: in, N: n, Skip: sk, Sizes: []int{3}})
+							}
 						}
 					}
 				}
